@@ -599,15 +599,24 @@ class _Canon2(_Canon):
             if const_value(order) == "big" and const_value(signed) is False and s.step is None and lo is not None and lo >= 0 \
                     and hi is not None and hi > lo:
                 return _be_field(r.args[0].value, lo, hi - lo)                # a fixed-width big-endian field
-        if isinstance(r.func, ast.Attribute) and r.func.attr in ("startswith", "endswith") and len(r.args) == 1 and not r.keywords \
-                and isinstance(r.args[0], ast.Constant) and isinstance(r.args[0].value, bytes) and r.args[0].value:
-            k = len(r.args[0].value)
-            if r.func.attr == "startswith":
-                sl = ast.Slice(lower=None, upper=ast.Constant(value=k), step=None)
-            else:
-                sl = ast.Slice(lower=ast.Constant(value=-k), upper=None, step=None)
-            return self.visit_Compare(ast.Compare(left=ast.Subscript(value=r.func.value, slice=sl, ctx=ast.Load()), ops=[ast.Eq()],
-                                                  comparators=[r.args[0]]))
+        if isinstance(r.func, ast.Attribute) and r.func.attr in ("startswith", "endswith") and 1 <= len(r.args) <= 2 and not r.keywords:
+            # b.startswith(p) is b[:len(p)] == p, b.startswith(p, s) is b[s:s + len(p)] == p (s >= 0), b.startswith((p, q)) is one of them
+            start = 0 if len(r.args) == 1 else r.args[1].value if _is_int_const(r.args[1]) and r.args[1].value >= 0 \
+                and r.func.attr == "startswith" else None
+            alts = [r.args[0]] if isinstance(r.args[0], ast.Constant) else list(r.args[0].elts) if isinstance(r.args[0], ast.Tuple) else None
+            if start is not None and alts is not None and all(isinstance(a, ast.Constant) and isinstance(a.value, bytes) and a.value for a in alts):
+                if not alts:
+                    return ast.Constant(value=False)
+                parts = []
+                for a in alts:
+                    k = len(a.value)
+                    if r.func.attr == "startswith":
+                        sl = ast.Slice(lower=ast.Constant(value=start) if start else None, upper=ast.Constant(value=start + k), step=None)
+                    else:
+                        sl = ast.Slice(lower=ast.Constant(value=-k), upper=None, step=None)
+                    parts.append(self.visit_Compare(ast.Compare(left=ast.Subscript(value=clone(r.func.value), slice=sl, ctx=ast.Load()),
+                                                                ops=[ast.Eq()], comparators=[a])))
+                return parts[0] if len(parts) == 1 else ast.BoolOp(op=ast.Or(), values=parts)
         if c == "divmod" and len(r.args) == 2 and not r.keywords:
             return ast.Tuple(elts=[self.visit_BinOp(ast.BinOp(left=r.args[0], op=ast.FloorDiv(), right=r.args[1])),
                                    self.visit_BinOp(ast.BinOp(left=clone(r.args[0]), op=ast.Mod(), right=clone(r.args[1])))], ctx=ast.Load())
@@ -734,6 +743,12 @@ class _Canon2(_Canon):
         return n
 
     def visit_Compare(self, n: ast.Compare) -> ast.AST:
+        if len(n.ops) == 1 and isinstance(n.ops[0], (ast.Is, ast.IsNot)):
+            for a, b in ((n.left, n.comparators[0]), (n.comparators[0], n.left)):
+                if _marker_lookup(a) and isinstance(b, ast.Name) and b.id == a.args[1].id:
+                    # d.get(k, S) is S  exactly when k is not in d (S is a private marker object that is never an entry of a table)
+                    op = ast.NotIn() if isinstance(n.ops[0], ast.Is) else ast.In()
+                    return self.visit_Compare(ast.Compare(left=a.args[0], ops=[op], comparators=[a.func.value]))
         self.generic_visit(n)
         if len(n.ops) == 1 and isinstance(n.ops[0], (ast.In, ast.NotIn)) and isinstance(n.comparators[0], ast.Call) \
                 and chain(n.comparators[0].func) == "range" and 1 <= len(n.comparators[0].args) <= 2 and not n.comparators[0].keywords:
@@ -810,6 +825,15 @@ class _Canon2(_Canon):
                 and isinstance(n.value.value, ast.Attribute) and n.value.value.attr == "hop":
             return ast.Attribute(value=n.value.value, attr="address", ctx=ast.Load())     # Hop.address is `self.peer.address`
         return n
+
+
+_SENTINEL = "%marker:"
+
+
+def _marker_lookup(n: ast.AST) -> bool:
+    """n is `d.get(k, S)` with S a private marker object (see _Sym._sentinel)"""
+    return isinstance(n, ast.Call) and isinstance(n.func, ast.Attribute) and n.func.attr == "get" and len(n.args) == 2 and not n.keywords \
+        and isinstance(n.args[1], ast.Name) and n.args[1].id.startswith(_SENTINEL)
 
 
 def _table_lookup_keys(x: ast.AST, sym: "_Sym | None") -> ast.AST | None:
@@ -1509,7 +1533,7 @@ class _Sym:
                                 self._name_classifier(fr, it)
                         return ast.Tuple(elts=items, ctx=ast.Load())
             return new
-        return _Canon2(self.hop_address, self).visit(sub(e))
+        return self._resolve_lookups(_Canon2(self.hop_address, self).visit(sub(e)), st)
 
     def _property_value(self, fr: _Frame, n: ast.Attribute, st: _St, depth: int) -> ast.AST | None:
         """`obj.name` where name is a NEW read-only property whose body is one `return <pure expression>`: that expression about obj"""
@@ -1608,6 +1632,8 @@ class _Sym:
         lib = self._lib_ref(fr.fi.module, n)
         if lib is not None:
             return ast.Name(id=lib, ctx=ast.Load())
+        if self._sentinel(fr.fi.module, n.id):
+            return ast.Name(id=_SENTINEL + n.id, ctx=ast.Load())
         g = self._global_value(fr.fi.module, n.id)
         if g is not None:
             return clone(g)
@@ -1620,6 +1646,63 @@ class _Sym:
     # A module-level name (or class attribute) that is bound exactly once to a literal table / a struct.Struct(fmt) object denotes
     # that value wherever it is read; members of an enumeration are distinct constants; the constructor of a NamedTuple /
     # dataclass / SimpleNamespace builds an object whose fields are the constructor's arguments.
+    def _sentinel(self, m, name: str) -> bool:
+        """`name` denotes, in module m, a private marker object: a module-level name bound once to `object()` / `<Class>()` whose only
+        uses anywhere are as the default of a lookup (`d.get(k, S)`, `getattr(o, a, S)`, `next(it, S)`) or as an operand of `is` /
+        `is not`.  Such an object is never an entry of any table, so `d.get(k, S) is S` says exactly `k not in d`."""
+        cache = self.__dict__.setdefault("_sentinels", {})
+        key = (m.relpath, name)
+        if key in cache:
+            return cache[key]
+        cache[key] = False
+        r = self.repo.resolve_name(m, name)
+        if not (isinstance(r, tuple) and r[0] == "const"):
+            return False
+        own = next((k for k, v in r[1].constants.items() if v is r[2]), None)
+        v = strip_cast(r[2])
+        if own is None or own != name or not self._bound_once(r[1], own) or not (r[1] is m or self._bound_once(m, name)):
+            return False
+        if not (isinstance(v, ast.Call) and not v.args and not v.keywords and isinstance(v.func, ast.Name)):
+            return False
+        if not ((v.func.id == "object" and self.repo.resolve_name(r[1], "object") is None) or v.func.id in r[1].classes):
+            return False
+        for mm in self.repo.modules.values():
+            for x in ast.walk(mm.tree):
+                if isinstance(x, ast.Attribute) and x.attr == name:
+                    return False            # (reached through a module object: not tracked)
+                if isinstance(x, ast.alias) and x.name == name and x.asname not in (None, name):
+                    return False
+                if isinstance(x, ast.Constant) and x.value == name and isinstance(parent(x), ast.Call):
+                    return False            # (getattr(module, "NAME") and the like)
+                if not (isinstance(x, ast.Name) and x.id == name and isinstance(x.ctx, ast.Load)):
+                    continue
+                q = parent(x)
+                while isinstance(q, ast.Call) and chain(q.func) in ("cast", "typing.cast") and len(q.args) == 2 and q.args[1] is x:
+                    x, q = q, parent(q)
+                if isinstance(q, ast.Compare) and all(isinstance(o, (ast.Is, ast.IsNot)) for o in q.ops):
+                    continue
+                if isinstance(q, ast.Call) and not q.keywords and len(q.args) >= 2 and q.args[-1] is x and (
+                        (isinstance(q.func, ast.Attribute) and q.func.attr == "get" and len(q.args) == 2)
+                        or (chain(q.func) == "getattr" and len(q.args) == 3) or (chain(q.func) == "next" and len(q.args) == 2)):
+                    continue
+                return False
+        cache[key] = True
+        return True
+
+    def _resolve_lookups(self, x: ast.AST, st: _St) -> ast.AST:
+        """`d.get(k, <marker>)` is `d[k]` on a path that established `k in d`"""
+        if not any(_marker_lookup(n) for n in ast.walk(x)):
+            return x
+        known = st.known
+
+        class T(ast.NodeTransformer):
+            def visit_Call(self, n: ast.Call) -> ast.AST:
+                self.generic_visit(n)
+                if _marker_lookup(n) and known("in", norm(n.args[0]), norm(n.func.value)) is True:
+                    return ast.Subscript(value=n.func.value, slice=n.args[0], ctx=ast.Load())
+                return n
+        return T().visit(x)
+
     def _bound_once(self, m, name: str) -> bool:
         cache = self.__dict__.setdefault("_store_counts", {})
         if m.relpath not in cache:
@@ -3060,15 +3143,19 @@ def _unknown_leaves(sym: _Sym, x: ast.AST, st: _St):
         yield x
 
 
-def _table_rows(ctx: Ctx, fi: FuncInfo, atoms: dict[str, list[tuple]], ingredients: tuple[str, ...], on_guess=None):
+def _table_rows(ctx: Ctx, fi: FuncInfo, atoms: dict[str, list[tuple]], ingredients: tuple[str, ...], on_guess=None, derived=None):
     """(assignment, set of truth values fi can return under it) for all assignments of the named atoms; each atom is
     given by the fact keys of its accepted spellings.  The function is walked path by path (loops over literal tables,
-    any()/all(), flags, ternaries, early returns and new helpers included)."""
+    any()/all(), flags, ternaries, early returns and new helpers included).  derived: atom name -> function of the assignment of
+    the other atoms (an atom whose value is determined by them is not enumerated)."""
     sym = _Sym(ctx, fi, lambda c: None, lambda *a: {})
-    names = list(atoms)
+    derived = derived or {}
+    names = [a for a in atoms if a not in derived]
     for vals in itertools.product([False, True], repeat=len(names)):
         env = dict(zip(names, vals))
-        seed = {k: env[a] for a in names for k in atoms[a]}
+        for a, fn in derived.items():
+            env[a] = bool(fn(env))
+        seed = {k: env[a] for a in atoms for k in atoms[a]}
         got = set()
         for t, ret, st in sym.decide(seed):
             # a condition outside the atoms: a possible re-spelling of an atom cannot be judged; anything else is a
@@ -3096,6 +3183,41 @@ def _sorted_eq(a: str, b: str) -> tuple:
     return ("eq", *sorted((a, b)))
 
 
+PREFIX_LEN = 22                 # b"\x00" + version byte + 20-byte community id
+
+
+class _PrefixPart(Exception):
+    """is_allowed compares bytes [lo:hi) of the overlay's prefix with the same bytes of the data"""
+
+    def __init__(self, lo: int, hi: int, key: tuple, text: str) -> None:
+        super().__init__(text)
+        self.lo, self.hi, self.key, self.text = lo, hi, key, text
+
+
+def _prefix_part(n: ast.AST, data: str, prefix: str) -> _PrefixPart | None:
+    """n is `<prefix>[a:b] == <data>[a:b]` (either order, == or !=, constant bounds that select the same byte positions of both)"""
+    if not (isinstance(n, ast.Compare) and len(n.ops) == 1 and isinstance(n.ops[0], (ast.Eq, ast.NotEq))):
+        return None
+
+    def bounds(e: ast.AST, length: int | None) -> tuple[int, int] | None:
+        if not (isinstance(e, ast.Subscript) and isinstance(e.slice, ast.Slice) and e.slice.step is None):
+            return None
+        lo = 0 if e.slice.lower is None else const_value(e.slice.lower)
+        hi = length if e.slice.upper is None else const_value(e.slice.upper)
+        if any(not isinstance(v, int) or isinstance(v, bool) for v in (lo, hi)):
+            return None
+        if length is not None:
+            lo, hi = (lo + length if lo < 0 else lo), (hi + length if hi < 0 else hi)
+            hi = min(hi, length)
+        return (lo, hi) if 0 <= lo < hi else None
+    for a, b in ((n.left, n.comparators[0]), (n.comparators[0], n.left)):
+        if isinstance(a, ast.Subscript) and norm(a.value) == prefix and isinstance(b, ast.Subscript) and norm(b.value) == data:
+            pa, pb = bounds(a, PREFIX_LEN), bounds(b, None)
+            if pa is not None and pa == pb:
+                return _PrefixPart(pa[0], pa[1], _sorted_eq(norm(a), norm(b)), norm(n))
+    return None
+
+
 def rule_policy_table(ctx: Ctx) -> None:
     fi = _method(ctx.repo, "TunnelExitSocket", "is_allowed", ES)
     data = fi.params()[1]
@@ -3112,14 +3234,48 @@ def rule_policy_table(ctx: Ctx) -> None:
                 ("truthy", f"{data}.startswith({prefix})", None)],
     }
     bad = []
+    # The own-overlay clause may be spelt piecewise (`p[:2] == d[:2] and p[2:] == d[2:22]`): every comparison of a byte range of the
+    # prefix with the same range of the data is an atom of its own, "the prefix matches" is their conjunction together with "the
+    # bytes no comparison looks at match too" (own.rest) - a clause that leaves bytes of the prefix uncompared then differs from the
+    # policy on the rows where exactly those bytes differ.
+    parts: dict[str, _PrefixPart] = {}
 
     def on_guess(conds: list[ast.AST]) -> None:
         for c in conds:
             src = _flag_snapshot(ctx, fi, c)
             if src is not None:
                 raise src
+        for c in conds:
+            for n in ast.walk(c):
+                p = _prefix_part(n, data, prefix)
+                if p is not None and p.key not in [k for ks in atoms.values() for k in ks]:
+                    raise p
+    rows: list = []
     try:
-        for env, got in _table_rows(ctx, fi, atoms, (data, "peer_flags", "get_prefix", "could_be_", "PEER_FLAG"), on_guess):
+        while True:
+            derived = None
+            if parts:
+                derived = {"own": lambda env: all(env[a] for a in [*parts, "own.rest"] if a in env)}
+            try:
+                rows = list(_table_rows(ctx, fi, atoms, (data, "peer_flags", "get_prefix", "could_be_", "PEER_FLAG"), on_guess, derived))
+                break
+            except _PrefixPart as p:
+                if (p.lo, p.hi) == (0, PREFIX_LEN):
+                    atoms["own"].append(p.key)          # one more spelling of the whole comparison
+                    continue
+                for q in parts.values():
+                    if (q.lo <= p.lo and p.hi <= q.hi) or (p.lo <= q.lo and q.hi <= p.hi):
+                        raise AnalysisError(f"undecided: {fi.qualname} compares nested ranges of the overlay prefix (`{q.text[:60]}`, `{p.text[:60]}`)")
+                if len(parts) >= 3:
+                    raise AnalysisError(f"undecided: {fi.qualname} compares the overlay prefix in more than 3 pieces")
+                parts[f"own[{p.lo}:{p.hi}]"] = p
+                atoms[f"own[{p.lo}:{p.hi}]"] = [p.key]
+                covered = {i for q in parts.values() for i in range(q.lo, q.hi)}
+                if len(covered) < PREFIX_LEN:
+                    atoms.setdefault("own.rest", [])
+                else:
+                    atoms.pop("own.rest", None)
+        for env, got in rows:
             want = bool((env["bt"] and env["BT"]) or (env["v8"] and env["V8"]) or (env["v8"] and env["own"]))
             ok = got == {want}
             ctx.instance("policy-table", fi.where, f"row {env} -> {sorted(got)} (spec {want})", ok=ok)
@@ -3134,8 +3290,16 @@ def rule_policy_table(ctx: Ctx) -> None:
                       "after the copy was taken keeps being honoured, so the socket emits (and tunnels back) traffic the exit policy forbids")
     if bad:
         env, got, want = bad[0]
+        why = ""
+        if parts:
+            missing = sorted(set(range(PREFIX_LEN)) - {i for q in parts.values() for i in range(q.lo, q.hi)})
+            why = (f"; TunnelExitSocket.is_allowed compares the overlay prefix only piecewise ({', '.join('`' + q.text[:70] + '`' for q in parts.values())})"
+                   + (f" and never compares byte(s) {missing} of the {PREFIX_LEN}-byte prefix (own.rest = those bytes match): IPv8-shaped packets of a "
+                      "different overlay prefix that agree on the compared bytes pass as the tunnel overlay's own traffic and are emitted / let "
+                      "back in without PEER_FLAG_EXIT_IPV8" if missing else ""))
         ctx.violation("policy-table", fi, fi.node,
-                      f"is_allowed differs from (bt&BT)|(v8&V8)|(v8&own) on {len(bad)} of 32 rows, e.g. {env}: returns {got}, policy says {want}")
+                      f"is_allowed differs from (bt&BT)|(v8&V8)|(v8&own) on {len(bad)} of {len(rows)} rows, e.g. {env}: returns {got}, "
+                      f"policy says {want}{why}")
     # the flag constants are the ones the tunnel module defines (bt -> EXIT_BT, ipv8 -> EXIT_IPV8)
     for name in ("PEER_FLAG_EXIT_BT", "PEER_FLAG_EXIT_IPV8"):
         r = ctx.repo.resolve_name(fi.module, name)
@@ -4510,6 +4674,9 @@ WITNESSES = [
     {"name": "own-prefix clause without ipv8 shape", "file": ES, "rule": "policy-table",
      "old": "and not (is_ipv8 and self.overlay.get_prefix() == data[:22]):",
      "new": "and not (self.overlay.get_prefix() == data[:22]):"},
+    {"name": "own-prefix clause ignores the prefix version bytes (seeded C06-m15)", "file": ES, "rule": "policy-table",
+     "old": "and not (is_ipv8 and self.overlay.get_prefix() == data[:22]):",
+     "new": "and not (is_ipv8 and self.overlay.get_prefix()[2:] == data[2:22]):"},
     {"name": "policy returns True on drop path", "file": ES, "rule": "policy-table",
      "old": "            self.logger.warning(\"Dropping data packets, refusing to be an exit node (BT=%s, IPv8=%s)\", is_bt, is_ipv8)\n            return False",
      "new": "            self.logger.warning(\"Dropping data packets, refusing to be an exit node (BT=%s, IPv8=%s)\", is_bt, is_ipv8)\n            return is_bt"},
